@@ -435,11 +435,10 @@ func ProcessGetLabelValuesRequest(ctx *fasthttp.RequestCtx, myid int64) {
 	segment.LogMetricsQuery("PromQL Label Values request", &metricQueryRequest[0], qid)
 	res := segment.ExecuteMetricsQuery(&metricQueryRequest[0].MetricsQuery, &metricQueryRequest[0].TimeRange, qid)
 
-	responseValues = make([]string, 0, len(res.TagValues))
-	for _, innerMap := range res.TagValues {
-		for tagValue := range innerMap {
-			responseValues = append(responseValues, tagValue)
-		}
+	// the search also collects the values of the other tag keys of the time range
+	responseValues = make([]string, 0, len(res.TagValues[labelName]))
+	for tagValue := range res.TagValues[labelName] {
+		responseValues = append(responseValues, tagValue)
 	}
 
 	response := map[string]interface{}{
